@@ -47,7 +47,7 @@ class TheCheck(Check):
         sts = []
         corpus = os.path.join(vlib.ROOT, "corpus", "C17")
         for f in sorted(os.listdir(corpus)) if os.path.isdir(corpus) else []:
-            if f.endswith(".ops") and not f.startswith(("parser", "ini-", "aconf-")):
+            if f.endswith(".ops") and not f.startswith(("parser", "ini-", "aconf-", "nomodel-")):
                 sts.append(Stream("corpus:" + f, [l.strip() for l in open(os.path.join(corpus, f)) if l.strip()]))
         big = self.tier != "quick"
         url_alpha = b"%+4ag\xff"
